@@ -1,6 +1,6 @@
 (* C01/Props.v -- pinned property theorems (statements only, closed by `exact`). *)
 From NV.Common Require Import Base.
-From NV.C01 Require Import Model VoteSim Inst.
+From NV.C01 Require Import Model LogList VoteSim LogMatch Inst.
 From NV.gen Require Import Gen_C01.
 Open Scope N_scope.
 
@@ -21,4 +21,37 @@ Proof.
   pose proof (gen_quorum_majority n). lia.
 Qed.
 
+(* LOG MATCHING.  In every state reachable by any schedule, if the logs of two nodes hold an entry of
+   the same term at position k, the two logs are identical on positions 1..k (so in particular on
+   every earlier position). *)
+Theorem C01_log_matching : forall n ab mp ops i j k t,
+  let s := grun (cluster n ab mp) gen_rules ops in
+  term_at (log (nth_node (nodes s) i)) k = Some t ->
+  term_at (log (nth_node (nodes s) j)) k = Some t ->
+  firstn k (log (nth_node (nodes s) i)) = firstn k (log (nth_node (nodes s) j)).
+Proof.
+  intros n ab mp. apply log_matching. cbn [cluster n_nodes quorum].
+  pose proof (gen_quorum_majority n). lia.
+Qed.
+
+(* every log is well-indexed (position k holds index k) and holds no entry of a term beyond the node's *)
+Theorem C01_logs_well_formed : forall n ab mp ops i,
+  let s := grun (cluster n ab mp) gen_rules ops in
+  WI (log (nth_node (nodes s) i)) /\
+  forall e, In e (log (nth_node (nodes s) i)) -> eterm e <= term (nth_node (nodes s) i).
+Proof.
+  intros n ab mp. apply logs_well_formed. cbn [cluster n_nodes quorum].
+  pose proof (gen_quorum_majority n). lia.
+Qed.
+
+(* non-vacuity: a concrete 3-node schedule elects a leader and replicates an entry *)
+Example C01_nonvacuous :
+  let ops := [GElect 0; GDeliver 0 true; GDeliver 2 true; GPropose 0 7 true; GHeartbeat 0; GDeliver 3 true] in
+  let s := grun (cluster 3 false 10) gen_rules ops in
+  leader_at (cluster 3 false 10) gen_rules ops 3 1 0 /\
+  term_at (log (nth_node (nodes s) 0)) 1 = Some 1 /\ term_at (log (nth_node (nodes s) 1)) 1 = Some 1.
+Proof. vm_compute. repeat split; reflexivity. Qed.
+
 Print Assumptions C01_election_safety.
+Print Assumptions C01_log_matching.
+Print Assumptions C01_logs_well_formed.
